@@ -123,8 +123,30 @@ fn corpus(g: &mut Gen, prop: &str) {
     }
 }
 
+/// Byte strings kept by the coverage-guided explorer (/verif/fuzz) for /repo's current sources: each one is
+/// decoded by `bytecase` into a configuration and operations and replayed as an ordinary case.
+fn covcorpus(g: &mut Gen, prop: &str) {
+    let dir = match std::env::var("VERIF_COVDIR") { Ok(d) if !d.is_empty() => d, _ => return };
+    let mut files: Vec<_> = match std::fs::read_dir(&dir) {
+        Ok(rd) => rd.filter_map(|e| e.ok()).map(|e| e.path()).filter(|p| p.is_file()).collect(),
+        Err(_) => vec![],
+    };
+    files.sort();
+    let twin = prop == "C02";
+    for f in files {
+        let data = match std::fs::read(&f) { Ok(d) => d, Err(_) => continue };
+        let mut u = crate::bytecase::U::new(&data);
+        let cfg = crate::bytecase::cfg_from(&mut u);
+        g.case("cov", &cfg, |s, _| {
+            if twin { s.twin_on = true; s.alt_on = false; }
+            crate::bytecase::run_bytes(s, &mut u);
+        });
+    }
+}
+
 pub fn run_property(g: &mut Gen, p: &str) -> bool {
     corpus(g, p);
+    if !matches!(p, "C17" | "C18" | "C19") { covcorpus(g, p); }
     match p {
         "C01" => c01(g),
         "C02" => c02(g),
@@ -164,8 +186,20 @@ fn maybe_install_eid(s: &mut Session, r: &mut Rng, c: &Call) {
     }
 }
 
+/// capacity of a response buffer: usually 64, one time in eight just around a multiple of 256 (a capacity
+/// computed in a narrower integer type wraps there)
+fn rcap(r: &mut Rng, usual: usize) -> usize {
+    if r.chance(1, 8) { r.pick(&[256usize, 256, 256, 512, 768, 1024]) - 3 + r.below(20) as usize } else { usual }
+}
+
+fn rbuf(r: &mut Rng, kind: u64) -> Vec<u8> {
+    let cap = rcap(r, 64);
+    poison(r, cap, kind)
+}
+
 fn pbuf(r: &mut Rng, base: usize, spread: u64) -> Vec<u8> {
-    let cap = base + r.below(spread + 1) as usize;
+    let usual = base + r.below(spread + 1) as usize;
+    let cap = rcap(r, usual);
     let k = r.below(3);
     poison(r, cap, k)
 }
@@ -177,13 +211,35 @@ fn buf_for(r: &mut Rng, c: &Call) -> Vec<u8> {
     poison(r, cap, k)
 }
 
+/// Encode the same call again into buffers that already hold *almost* the right answer: the previous output with
+/// its PEC altered, with one other byte altered, with a stale tail (an encoder must write every byte of the
+/// packet, whatever the buffer held — it may not take a matching prefix as proof that nothing needs writing)
+fn reencode_near(s: &mut Session, r: &mut Rng, c: &Call, prev: &Obs, all: bool) {
+    if let Obs::Enc(Some(n), out) = prev {
+        let n = *n;
+        if n < 2 || n > out.len() { return; }
+        let kinds: Vec<u64> = if all { vec![0, 1, 2] } else { vec![r.below(3)] };
+        for k in kinds {
+            let mut b = out.clone();
+            match k {
+                0 => { b[n - 1] = b[n - 1].wrapping_add(1 + r.below(255) as u8); }
+                1 => { let i = r.below((n - 1) as u64) as usize; b[i] ^= 1 << r.below(8); }
+                _ => { let i = r.below(n as u64) as usize; for x in b[i..n].iter_mut() { *x = !*x; } }
+            }
+            if r.chance(1, 3) { let k = 1 + r.below(4) as usize; let extra = r.bytes(k); b.extend(extra); }
+            s.op(enc_op(c, b));
+        }
+    }
+}
+
 fn encode_case(g: &mut Gen, stratum: &str, key: (bool, u32), refuse: bool, total: Option<usize>) {
     let cfg = gen_cfg(&mut g.rng);
     g.case(stratum, &cfg, |s, r| {
         let c = gen_call(r, key, refuse, total);
         maybe_install_eid(s, r, &c);
         let buf = buf_for(r, &c);
-        s.op(enc_op(&c, buf));
+        let o = s.op(enc_op(&c, buf));
+        if r.chance(1, 3) { reencode_near(s, r, &c, &o, false); }
     });
 }
 
@@ -259,7 +315,9 @@ fn c04_case(g: &mut Gen, stratum: &str, cfg: &Cfg, key: (bool, u32), total: Opti
         }
         maybe_install_eid(s, r, &c);
         let buf = buf_for(r, &c);
-        if let Obs::Enc(Some(n), out) = s.op(enc_op(&c, buf)) {
+        let o = s.op(enc_op(&c, buf));
+        if r.chance(1, 4) { reencode_near(s, r, &c, &o, false); }
+        if let Obs::Enc(Some(n), out) = o {
             if n <= out.len() && n >= 3 {
                 // the length probe on prefixes: 3 bytes, 4 bytes, a random prefix, the whole packet,
                 // and the 3-byte prefix with a random continuation of the same length as the packet
@@ -484,10 +542,13 @@ fn c16(g: &mut Gen) {
                 let n = expected_len(&c).unwrap_or(12 + r.below(30) as usize);
                 // the same call three times: exact capacity / zero poison, +1 / 0xFF poison, +k / noise
                 let caps = [n, n + 1, n + 1 + r.below(40) as usize];
+                let mut last = Obs::Unit;
                 for (k, cap) in caps.iter().enumerate() {
                     let b = poison(r, *cap, k as u64);
-                    s.op(enc_op(&c, b));
+                    last = s.op(enc_op(&c, b));
                 }
+                // ... and into buffers that already hold almost the right answer
+                reencode_near(s, r, &c, &last, i % 2 == 0);
             });
         }
     }
@@ -574,9 +635,33 @@ fn gen_packet(r: &mut Rng, valid_hdr: bool) -> Vec<u8> {
 }
 
 /// one of the corruptions of a packet
+/// corruptions that a weaker check than CRC-8 (byte sum, xor, position-weighted sum, "same bytes in any order")
+/// would let through: byte swaps, +d/-d pairs, +d/-2d/+d triples, the same bit flipped in two bytes, a rotation
+fn weak_corrupt(r: &mut Rng, p: &[u8]) -> Vec<u8> {
+    let mut q = p.to_vec();
+    let n = q.len();
+    if n < 4 { return q; }
+    // positions over the whole packet, the tail (payload + PEC) over-weighted
+    let pos = |r: &mut Rng, span: usize| -> usize { if r.chance(1, 2) { (n - span).saturating_sub(r.below(6) as usize) } else { r.below((n - span + 1) as u64) as usize } };
+    match r.below(6) {
+        0 => { let i = pos(r, 2); let j = if r.chance(1, 2) { i + 1 } else { r.below(n as u64) as usize }; q.swap(i, j); }
+        1 => { let i = pos(r, 2); let j = if r.chance(1, 2) { i + 1 } else { r.below(n as u64) as usize }; let d = 1 + r.below(255) as u8;
+               if i != j { q[i] = q[i].wrapping_add(d); q[j] = q[j].wrapping_sub(d); } }
+        2 => { let i = pos(r, 3); let d = if r.chance(1, 2) { 1 } else { 1 + r.below(127) as u8 }; let neg = r.chance(1, 2);
+               let (a, b) = if neg { (d.wrapping_neg(), d.wrapping_mul(2)) } else { (d, d.wrapping_mul(2).wrapping_neg()) };
+               q[i] = q[i].wrapping_add(a); q[i + 1] = q[i + 1].wrapping_add(b); q[i + 2] = q[i + 2].wrapping_add(a); }
+        3 => { let i = pos(r, 2); let j = if r.chance(1, 2) { i + 1 } else { r.below(n as u64) as usize }; let m = 1u8 << r.below(8);
+               if i != j { q[i] ^= m; q[j] ^= m; } }
+        4 => { let st = 8.min(n - 2); let m = n - st; let k = 1 + r.below((m - 1) as u64) as usize; q[st..].rotate_left(k % m); }
+        _ => { let st = 8.min(n - 2); q[st..].reverse(); }
+    }
+    q
+}
+
 fn corrupt(r: &mut Rng, p: &[u8]) -> Vec<u8> {
     let mut q = p.to_vec();
     if q.is_empty() { return q; }
+    if r.chance(1, 6) { return weak_corrupt(r, p); }
     match r.below(8) {
         6 => { let k = 1 + r.below(8) as usize; let t = r.bytes(k); q.extend(t); }   // stray bytes after the packet
         7 => { if q.len() > 2 { q[2] = r.byte(); } }                                 // byte count corrupted
@@ -758,9 +843,9 @@ fn c10(g: &mut Gen) {
         g.case("ops", &cfg, |s, r| {
             let src = r.below(128) as u8;
             let p = build_packet(0x10, src, 1, 0x20, src, 0xC8, 0, &ctl_body(true, false, false, 0, 1, None, &[v as u8, 1 + r.below(254) as u8]));
-            let b = poison(r, 64, 2); s.op(Op::Process(p, b));
+            let b = rbuf(r, 2); s.op(Op::Process(p, b));
             let p = build_packet(0x10, src, 1, 0x20, src, 0xC8, 0, &ctl_body(true, false, false, 0, 6, None, &[v as u8]));
-            let b = poison(r, 64, 2); s.op(Op::Process(p, b));
+            let b = rbuf(r, 2); s.op(Op::Process(p, b));
         });
     }
     // every length 0..259 of random bytes and of valid-prefix bytes
@@ -769,11 +854,27 @@ fn c10(g: &mut Gen) {
         g.case("len", &cfg, |s, r| {
             let p = r.bytes(len);
             s.op(Op::Decode(p.clone())); s.op(Op::GetLength(p.clone()));
-            let b = poison(r, 64, 0); s.op(Op::Process(p, b));
+            let b = rbuf(r, 0); s.op(Op::Process(p, b));
             let mut q = gen_packet(r, true); q.resize(len, 0x5A);
             if len >= 2 { let c = crc8(&q[..len - 1]); q[len - 1] = c; }
             s.op(Op::Decode(q.clone())); s.op(Op::GetLength(q.clone()));
-            let b = poison(r, 64, 1); s.op(Op::Process(q, b));
+            let b = rbuf(r, 1); s.op(Op::Process(q, b));
+        });
+    }
+    // long-lived contexts: more than 2^16 operations of one kind on one context (a statistic, sequence number or
+    // retry budget kept per context must not wrap into a panic)
+    for kind in 0..4u64 {
+        let cfg = gen_cfg(&mut g.rng);
+        g.case("soak", &cfg, |s, r| {
+            let good = request(r.below(128) as u8, 0, 1, &[0, 1 + r.below(254) as u8], r);
+            let mut bad = good.clone(); let l = bad.len(); bad[l - 1] ^= 0x40;
+            let junk = r.bytes(5);
+            let short = good[..9].to_vec();
+            for i in 0..66_000u32 {
+                let p = match kind { 0 | 1 => &bad, 2 => [&bad, &junk, &short, &good][(i % 4) as usize], _ => &good };
+                if kind == 0 || (kind == 2 && i % 8 < 4) { s.op(Op::Decode(p.clone())); }
+                else { s.op(Op::Process(p.clone(), vec![0u8; 24])); }
+            }
         });
     }
     // mixed traffic after a prior history
@@ -781,7 +882,7 @@ fn c10(g: &mut Gen) {
     for _ in 0..n {
         let cfg = gen_cfg(&mut g.rng);
         g.case("mix", &cfg, |s, r| {
-            for _ in 0..r.below(3) { let p = any_packet(s, r); let b = poison(r, 64, 0); s.op(Op::Process(p, b)); }
+            for _ in 0..r.below(3) { let p = any_packet(s, r); let b = rbuf(r, 0); s.op(Op::Process(p, b)); }
             let p = any_packet(s, r);
             s.op(Op::Decode(p.clone()));
             s.op(Op::GetLength(p.clone()));
@@ -934,7 +1035,12 @@ fn request(src: u8, inst: u8, cmd: u8, data: &[u8], r: &mut Rng) -> Vec<u8> {
     let d = r.chance(1, 6);
     let rs = r.chance(1, 8);
     let flags = if r.chance(2, 3) { 0xC8 } else { r.byte() };
-    let mut p = build_packet(r.below(128) as u8, src, 1, r.byte(), src, flags, 0, &ctl_body(true, d, rs, inst, cmd, None, data));
+    // addressed to the context under test half of the time: by its physical address, and by its own address /
+    // either EID it currently holds / the requester's ID / anything as destination EID
+    let (a, er, es) = crate::exec::hint();
+    let dst = if r.chance(1, 2) { a & 0x7F } else { r.below(128) as u8 };
+    let de = match r.below(6) { 0 => a, 1 => er, 2 => es, 3 => src, _ => r.byte() };
+    let mut p = build_packet(dst, src, 1, de, src, flags, 0, &ctl_body(true, d, rs, inst, cmd, None, data));
     let mut touched = false;
     if r.chance(1, 8) { p[3] &= 0xFE; touched = true; }
     if r.chance(1, 10) { p[0] |= 1; touched = true; }
@@ -1014,7 +1120,7 @@ fn history(s: &mut Session, len: usize, r: &mut Rng) {
             8 => { // selectors at / above n
                 let sel = if r.chance(1, 2) { s.nvend as u8 } else { r.pick(&[0xFFu8, 0xFE, 0x80, 17]) };
                 let p = request(r.below(128) as u8, 0, 6, &[sel], r);
-                let b = poison(r, 64, 1); s.op(Op::Process(p, b));
+                let b = rbuf(r, 1); s.op(Op::Process(p, b));
             }
             9..=10 => { // corrupted copies of valid Set EID requests
                 let p = request(r.below(128) as u8, 0, 1, &[r.below(2) as u8, 1 + r.below(254) as u8], r);
@@ -1055,7 +1161,7 @@ fn c13(g: &mut Gen) {
             history(s, len, r);
             // finish by asking for the EID
             let p = request(r.below(128) as u8, 0, 2, &[], r);
-            let b = poison(r, 64, 1); s.op(Op::Process(p, b));
+            let b = rbuf(r, 1); s.op(Op::Process(p, b));
         });
     }
     // re-assignment of a value one half already holds, after the halves were made to differ through an accessor
@@ -1085,8 +1191,8 @@ fn c13(g: &mut Gen) {
     g.case("eids", &cfg, |s, r| {
         for e in 1..=254u32 {
             let p = request(r.below(128) as u8, 0, 1, &[(e % 2) as u8, e as u8], r);
-            let b = poison(r, 64, 2); s.op(Op::Process(p, b));
-            if e % 5 == 0 { let q = request(9, 0, 2, &[], r); let b = poison(r, 64, 2); s.op(Op::Process(q, b)); }
+            let b = rbuf(r, 2); s.op(Op::Process(p, b));
+            if e % 5 == 0 { let q = request(9, 0, 2, &[], r); let b = rbuf(r, 2); s.op(Op::Process(q, b)); }
         }
     });
 }
@@ -1127,7 +1233,7 @@ fn c14(g: &mut Gen) {
             let mut cfg = gen_cfg(&mut g.rng);
             cfg.vendor_ids = (0..n).map(|i| ((i % 2) as u8, 0x01020304u32.wrapping_mul(i as u32 + 3), 0x0A0B + i as u16)).collect();
             g.case("perm", &cfg, |s, r| {
-                for sel in pm { let p = request(5, 0, 6, &[sel], r); let b = poison(r, 64, 1); s.op(Op::Process(p, b)); }
+                for sel in pm { let p = request(5, 0, 6, &[sel], r); let b = rbuf(r, 1); s.op(Op::Process(p, b)); }
             });
         }
     }
@@ -1183,7 +1289,7 @@ fn c02(g: &mut Gen) {
                 let b = pbuf(r, 64, 0); s.op(Op::Process(bad, b));
                 // the same endpoint afterwards: the good packet, then its state
                 let b = pbuf(r, 64, 0); s.op(Op::Process(good, b));
-                let q = request(7, 0, 2, &[], r); let b = poison(r, 64, 0); s.op(Op::Process(q, b));
+                let q = request(7, 0, 2, &[], r); let b = rbuf(r, 0); s.op(Op::Process(q, b));
             });
         }
     }
@@ -1205,6 +1311,32 @@ fn c02(g: &mut Gen) {
             q.extend(t);
             s.op(Op::Decode(q.clone()));
             let b = pbuf(r, 64, 0); s.op(Op::Process(q, b));
+            let e = request(7, 0, 2, &[], r); let b = pbuf(r, 64, 0); s.op(Op::Process(e, b));
+        });
+    }
+    // corruptions a weaker checksum would miss, each right after the intact packet was accepted by the same
+    // context (a result remembered from the intact packet must not vouch for the altered one)
+    let reps = g.n(150, 6000);
+    for _ in 0..reps {
+        let cfg = gen_cfg(&mut g.rng);
+        g.case("weaksum", &cfg, |s, r| {
+            s.twin_on = true; s.alt_on = false;
+            let p = match r.below(4) {
+                0 | 1 => request(r.below(128) as u8, 0, 1, &[r.below(2) as u8, 1 + r.below(254) as u8], r),
+                2 => encoder_packet(s, r).unwrap_or_else(|| gen_packet(r, true)),
+                _ => gen_packet(r, true),
+            };
+            match r.below(3) {
+                0 => {}
+                1 => { s.op(Op::Decode(p.clone())); }
+                _ => { let b = pbuf(r, 64, 0); s.op(Op::Process(p.clone(), b)); }
+            }
+            for _ in 0..(1 + r.below(6)) {
+                let q = weak_corrupt(r, &p);
+                if q == p { continue; }
+                s.op(Op::Decode(q.clone()));
+                let b = pbuf(r, 64, 0); s.op(Op::Process(q, b));
+            }
             let e = request(7, 0, 2, &[], r); let b = pbuf(r, 64, 0); s.op(Op::Process(e, b));
         });
     }
@@ -1261,7 +1393,7 @@ fn c02(g: &mut Gen) {
                     let b = pbuf(r, 64, 0); s.op(Op::Process(q, b));
                 } else { history(s, 1, r); }
             }
-            let q = request(7, 0, 2, &[], r); let b = poison(r, 64, 0); s.op(Op::Process(q, b));
+            let q = request(7, 0, 2, &[], r); let b = rbuf(r, 0); s.op(Op::Process(q, b));
         });
     }
 }
